@@ -261,16 +261,24 @@ def t_patternProperties(d, k):
 
 def t_additionalProperties(d, k):
     import re
-    for plab, props, pats in (("no siblings", None, None), ("properties", {"a": S(0)}, None), ("patternProperties", None, {"^x": S(1)}),
-                              ("both", {"a": S(0)}, {"^x": S(1)})):
+    for plab, props, pats, annot in (("no siblings", None, None, None), ("properties", {"a": S(0)}, None, None), ("patternProperties", None, {"^x": S(1)}, None),
+                                     ("both", {"a": S(0)}, {"^x": S(1)}, None),
+                                     # the schema's *other* members declare nothing: an instance member named like one of them is additional
+                                     ("annotations only", None, None, {"title": "t", "b": 1, "required": ["c"]}),
+                                     ("properties and annotations", {"a": S(0)}, None, {"title": "t", "b": 1})):
         for vlab, val in (("schema", S(5)), ("false", False), ("true", True)):
             schema = {k: val}
             if props is not None:
                 schema["properties"] = props
             if pats is not None:
                 schema["patternProperties"] = pats
+            if annot is not None:
+                schema.update(annot)
             # the empty string and "0" are member names like any other (and falsy / digit-like ones)
-            for members in ((), ("a",), ("a", "xa"), ("a", "b"), ("b", "xa", "c"), ("",), ("", "b"), ("b", ""), ("a", "", "xa"), ("0",)):
+            member_sets = ((), ("a",), ("a", "xa"), ("a", "b"), ("b", "xa", "c"), ("",), ("", "b"), ("b", ""), ("a", "", "xa"), ("0",))
+            if annot is not None:
+                member_sets = (("title",), ("b", "title"), (k,), ("a", "b"), ("properties",))
+            for members in member_sets:
                 inst = {m: X(i) for i, m in enumerate(members)}
                 extras = [m for m in members if not (props and m in props) and not (pats and any(re.search(p, m) for p in pats))]
                 for o in oracles([(inst[m], val) for m in extras] if isinstance(val, Tok) else [], two=(len(extras) == 2)):
